@@ -32,6 +32,7 @@ def run(chk):
     r4(chk, prog, m)
     r5(chk, prog, m)
     r6(chk, prog, m)
+    c11.r7(chk, prog, prog.module("json_object.c"))   # shared: the sign-encoded string length is decoded before use
     chk.undecided_clauses += [
         "reflexivity / symmetry / transitivity as relations over all trees (follow from the per-kind tables plus the container rules only "
         "by induction over tree depth, which is argued, not mechanised, here)",
